@@ -1237,6 +1237,11 @@ def annotation(line, key):
 
 def judge(prop, case, impl, model):
     probs = vlib.default_judge(case, impl, model)
+    if prop != "C04":
+        # `pa argc0` (evalArguments with the EMPTY argv, corpus/progargs/argc0_empty_argv.ops) speaks about C04 alone
+        # (known finding argc0-reads-outside-argv); the other properties are stated for an argv with a program name
+        # and do not judge that line (the corpus is shared by all properties of the component)
+        probs = [p for p in probs if not (p.kind == "diff" and p.line.startswith("pa argc0"))]
     ops = ["case " + case.cid] + case.lines
     first = probs[0].index if probs else len(ops)
     for idx, op in enumerate(ops):
@@ -1280,6 +1285,8 @@ def diff_is_failure(prop, p):
     a, b = (p.impl or ""), (p.model or "")
     if p.line.startswith("pa rest"):
         return True          # argsAsString(): the strings (and which call throws) are determined by argv alone
+    if p.line.startswith("pa argc0"):
+        return a.startswith("crash")    # evalArguments( 0, argv) ended in a sanitizer report / signal: C04 itself fails
     if a.startswith("throw ") and b.startswith("throw "):
         return False
     if PROPERTIES[prop]["kind"] == "functional":
@@ -1438,3 +1445,216 @@ def generate(prop, tier, seed, scale=1):
         rng = random.Random("C08-glist-%s" % seed)
         n = (40 if tier == "quick" else 3000) * scale
         yield "generated", [group_listvalue_case(rng, "glist-%d" % k) for k in range(n)]
+
+
+# ---- `pa gdef` with SUB-GROUP argument definitions (appended) ----------------------------------------------------
+# item `<m>s:<keyspec>`: Handler::addArgument( spec, Handler& subGroup, desc) on member m with a fresh sub handler.
+# The key tables of a group are ONE name space: a key (or a key that mismatches: exactly one of short / long equal)
+# that any member holds in either container (plain arguments, sub-group arguments) must be refused at the definition
+# that brings it in - /repo fixes b870f06 (sub-group definition against another member) and 2dd61bc (plain and
+# sub-group argument of ONE handler).  The expectation is computed here from the keys alone, container-blind.
+
+def _gdef_parts(sp):
+    ps = sp.split(",")
+    sh = [x for x in ps if len(x) == 1]
+    lg = [x for x in ps if len(x) > 1]
+    return (sh[0] if sh else None, lg[0] if lg else None)
+
+
+def _gdef_clash(a, b):
+    (s1, l1), (s2, l2) = a, b
+    if s1 and s2 and l1 and l2:
+        return s1 == s2 or l1 == l2          # equal, or a mismatch (exactly one part equal)
+    if s1 and s2:
+        return s1 == s2
+    if l1 and l2:
+        return l1 == l2
+    return False
+
+
+def gdef_sub_line(n, defs, label):
+    """defs: [(member, is a sub-group argument, key spec)] -> the `pa gdef` line with its expectation: the first
+    definition whose key clashes with ANY key defined before it in the group (whichever member, whichever container)
+    must be refused (`x-refuse=<idx>`), a history without such a definition accepted (`x-exp=ok`)"""
+    seen, ann = [], "x-exp=" + G.hx("ok")
+    for idx, (_m, _s, sp) in enumerate(defs):
+        k = _gdef_parts(sp)
+        if any(_gdef_clash(k, o) for o in seen):
+            ann = "x-refuse=%d" % idx
+            break
+        seen.append(k)
+    return "pa gdef x-lbl=%s %s members=%d -- %s" % (
+        label, ann, n, " ".join("%d%s:%s" % (m, "s" if s else "", sp) for m, s, sp in defs))
+
+
+GDEF_SUB_SCENARIOS = ["plain-sub-other", "sub-plain-other", "sub-sub-other", "plain-sub-same", "sub-plain-same",
+                      "sub-sub-same", "mismatch-long", "mismatch-short", "part-equal", "accepted", "accepted", "random"]
+
+
+def group_define_sub_history(rng, scen):
+    """(members, [(member, is_sub, spec)]) of one scenario: a clashing pair placed among definitions with fresh keys"""
+    n = rng.randint(2, 4)
+    shorts = rng.sample(G.SHORTS, 10)
+    longs = rng.sample(G.LONGS, 10)
+
+    def fresh(both=False):
+        r = rng.random()
+        if not both and r < 0.35:
+            return shorts.pop()
+        if not both and r < 0.6:
+            return longs.pop()
+        return shorts.pop() + "," + longs.pop()
+    if scen == "random":
+        # small pools, every definition a plain or a sub-group argument: clashes of every kind at any index
+        ps, pl = [shorts.pop() for _ in range(4)], [longs.pop() for _ in range(4)]
+        defs = []
+        for _ in range(rng.randint(3, 7)):
+            r = rng.random()
+            sp = rng.choice(ps) if r < 0.35 else rng.choice(pl) if r < 0.6 else rng.choice(ps) + "," + rng.choice(pl)
+            defs.append((rng.randrange(n), rng.random() < 0.5, sp))
+        if not any(d[1] for d in defs):
+            q = rng.randrange(len(defs))
+            defs[q] = (defs[q][0], True, defs[q][2])
+        return n, defs
+    fill = [(rng.randrange(n), rng.random() < 0.5, fresh()) for _ in range(rng.randint(0, 4))]
+    if scen == "accepted":
+        # several sub-group definitions (at least two, in one member or in several), nothing clashes
+        fill += [(rng.randrange(n), True, fresh()) for _ in range(rng.randint(2, 3))]
+        rng.shuffle(fill)
+        return n, fill
+    ma = rng.randrange(n)
+    mb = rng.choice([m for m in range(n) if m != ma])
+    if scen.endswith("-same"):
+        mb = ma
+    if scen.startswith("plain-sub"):
+        ca, cb = False, True
+    elif scen.startswith("sub-plain"):
+        ca, cb = True, False
+    elif scen.startswith("sub-sub"):
+        ca, cb = True, True
+    else:
+        ca, cb = rng.choice([(False, True), (True, False), (True, True)])
+        if rng.random() < 0.3:
+            mb = ma
+    if scen == "mismatch-long":          # a,xyz against a,other
+        s_ = shorts.pop()
+        ka, kb = s_ + "," + longs.pop(), s_ + "," + longs.pop()
+    elif scen == "mismatch-short":       # b,xyz against a,xyz
+        l_ = longs.pop()
+        ka, kb = shorts.pop() + "," + l_, shorts.pop() + "," + l_
+    elif scen == "part-equal":           # a,xyz against a / xyz against b,xyz ...
+        s_, l_ = shorts.pop(), longs.pop()
+        ka, kb = rng.choice([(s_ + "," + l_, s_), (s_ + "," + l_, l_), (s_, s_ + "," + l_), (l_, s_ + "," + l_)])
+    else:
+        ka = kb = fresh()
+    i = rng.randint(0, len(fill))
+    fill.insert(i, (ma, ca, ka))
+    j = rng.randint(i + 1, len(fill))
+    fill.insert(j, (mb, cb, kb))
+    return n, fill
+
+
+def group_define_sub_case(rng, cid):
+    """definition histories WITH sub-group argument definitions: the same key plain in member A then sub-group in
+    member B (b870f06), sub-group then plain, sub-group twice, plain + sub-group in the same member (2dd61bc),
+    mismatching pairs, accepted histories with several sub-group definitions, random histories"""
+    lines = ["pa cfg begin abbr=1", "pa arg key=Q kind=flag", "pa cfg end"]
+    for _ in range(rng.randint(1, 3)):
+        scen = rng.choice(GDEF_SUB_SCENARIOS)
+        n, defs = group_define_sub_history(rng, scen)
+        lines.append(gdef_sub_line(n, defs, "gdef-sub-" + scen))
+    return Case(cid, lines)
+
+
+GDEF_EXH_SPECS = ["a", "xyz", "a,xyz", "a,other", "b,xyz"]
+
+
+def exhaustive_gdef_sub(max_len):
+    """2 members x {plain, sub-group} x GDEF_EXH_SPECS: every history of 1..max_len definitions"""
+    import itertools
+    items = [(m, s, sp) for m in (0, 1) for s in (False, True) for sp in GDEF_EXH_SPECS]
+    head = ["pa cfg begin abbr=1", "pa arg key=Q kind=flag", "pa cfg end"]
+    cases, lines = [], list(head)
+    for k in range(1, max_len + 1):
+        for defs in itertools.product(items, repeat=k):
+            lines.append(gdef_sub_line(2, list(defs), "exh-gdef-sub"))
+            if len(lines) > 400:
+                cases.append(Case("exhgdef-%d" % len(cases), lines))
+                lines = list(head)
+    if len(lines) > len(head):
+        cases.append(Case("exhgdef-%d" % len(cases), lines))
+    return cases
+
+
+_generate_before_gdef_sub = generate
+
+
+def generate(prop, tier, seed, scale=1):
+    for label, cases in _generate_before_gdef_sub(prop, tier, seed, scale):
+        yield label, cases
+    if prop == "C08":
+        rng = random.Random("C08-gdefsub-%s" % seed)
+        n = (40 if tier == "quick" else 3000) * scale
+        yield "generated", [group_define_sub_case(rng, "gdefsub-%d" % k) for k in range(n)]
+        k = 2 if tier == "quick" else 3
+        yield "exhaustive gdef-sub: 2 members x {plain, sub-group} x %d key specifications, histories of <= %d definitions" % (
+            len(GDEF_EXH_SPECS), k), exhaustive_gdef_sub(k)
+
+
+# ---- second audit follow-up (appended): rule-breaking lines delivered THROUGH THE SOURCES ---------------------------
+# `C02_parse_faithful_sources`, `C02_sound_sources_partial` and the `…_refused_wide` theorems of Props/C02b.lean speak
+# about the words of file lines and of the environment value.  This batch delivers the rule-breaking mutations of a
+# valid line (all kinds but the cardinality ones: a value from a source is not counted by design, C07) wholly through
+# the argument file (alone, or between comment / empty lines) or the environment variable, and expects an exception
+# from the implementation alone.  Also: an unknown key behind a flag in one word (`-qx`), behind a word like
+# `--name=-` that is no separator, and a missing value at the end of a file line that is followed by another line.
+
+def broken_source_case(rng, cid):
+    for _ in range(50):
+        args, globs, abbr = G.gen_config(rng)
+        uses = G.gen_uses(rng, args, globs)
+        if uses is not None:
+            break
+    else:
+        return None
+    lines = G.cfg_lines(args, globs, abbr)
+    ncfg = len(lines)
+    for _ in range(rng.randint(3, 6)):
+        r = G.break_rule(rng, args, globs, uses, abbr)
+        if r is None or r[1] is None or r[0] in ("too_many", "too_few"):
+            continue
+        q = [G.quote_word(rng, w) for w in r[1]]
+        if any(x is None for x in q):
+            continue
+        text = " ".join(q)
+        mode = rng.random()
+        if mode < 0.35:
+            opt = file_opt(rng, [text])
+        elif mode < 0.65:
+            opt = "env=" + G.hx(text)
+        else:
+            opt = file_opt(rng, [rng.choice(["# a comment", "", "#-x 5"]), text, rng.choice(["", "# end"])])
+        lines.append("pa eval x-lbl=broken-src:%s x-exp=%s %s --" % (r[0], G.hx("throw"), opt))
+    # wide refusal forms on argv and in a file line: unknown key character behind a flag in the same word
+    used_s = set(a.short for a in args if a.short)
+    flags = [a.short for a in args if a.kind == "flag" and a.short and not a.cons
+             and not any(i_ in tgt for i_, b_ in enumerate(args) if b_ is a for c_ in args for _, tgt, _s in c_.cons)]
+    cand = [c for c in "ehxHQZ" if c not in used_s]
+    if flags and cand:
+        w = "-" + rng.choice(flags) + rng.choice(cand)
+        lines.append("pa eval x-lbl=broken-wide:group x-exp=%s -- %s" % (G.hx("throw"), words_hex([w])))
+        lines.append("pa eval x-lbl=broken-wide:group-file x-exp=%s %s --" % (G.hx("throw"), file_opt(rng, [w])))
+    return Case(cid, lines) if len(lines) > ncfg else None
+
+
+_generate_before_broken_src = generate
+
+
+def generate(prop, tier, seed, scale=1):
+    for label, cases in _generate_before_broken_src(prop, tier, seed, scale):
+        yield label, cases
+    if prop in ("C02", "C07"):
+        rng = random.Random("%s-brokensrc-%s" % (prop, seed))
+        n = (60 if tier == "quick" else 4000) * scale
+        cs = [broken_source_case(rng, "bsrc-%d" % k) for k in range(n)]
+        yield "generated", [c for c in cs if c is not None]
